@@ -286,6 +286,68 @@ fn main() {
                 }
                 h.finish().value().to_string()
             }
+            // pkmeta <marker index of pk column 0> <.. of pk column 1> ...: a PREPARED result whose partition key columns sit on
+            // those bind markers goes through the real frame parser; prints pk_indexes as index:sequence,...
+            "pkmeta" => {
+                use bytes::BufMut;
+                let idx: Vec<u16> = (1..a.len()).map(|i| num(i) as u16).collect();
+                let ncols = idx.iter().map(|x| *x as usize + 1).max().unwrap_or(1).min(12);
+                let mut b: Vec<u8> = Vec::new();
+                b.put_i32(4);                       // kind = Prepared
+                b.put_u16(2); b.put_slice(b"id");   // statement id
+                b.put_i32(0);                       // prepared-metadata flags: no global table spec
+                b.put_i32(ncols as i32);
+                b.put_i32(idx.len() as i32);
+                for i in &idx { b.put_u16(*i); }
+                for c in 0..ncols {
+                    b.put_u16(1); b.put_slice(b"k"); b.put_u16(1); b.put_slice(b"t");
+                    let name = format!("c{}", c);
+                    b.put_u16(name.len() as u16); b.put_slice(name.as_bytes());
+                    b.put_u16(0x0003);              // blob
+                }
+                b.put_i32(4); b.put_i32(0);         // result metadata: NO_METADATA, 0 columns
+                let feats = scylla_cql::frame::protocol_features::ProtocolFeatures::default();
+                match scylla_cql::frame::response::result::deserialize_with_features(bytes::Bytes::from(b), None, &feats) {
+                    Ok(scylla_cql::frame::response::result::Result::Prepared(p)) => p
+                        .prepared_metadata.pk_indexes.iter().map(|e| format!("{}:{}", e.index, e.sequence)).collect::<Vec<_>>().join(","),
+                    Ok(_) => "NOT-PREPARED".to_string(),
+                    Err(e) => format!("ERR {}", e).replace('\n', " "),
+                }
+            }
+            // pktoken <index:sequence,...> <cell hex | - (empty) | null | unset> ...: PartitionKey::new + encoding + token
+            "pktoken" => {
+                use scylla_cql::frame::response::result::{ColumnSpec, ColumnType, NativeType, PartitionKeyIndex, PreparedMetadata, TableSpec};
+                use scylla_cql::serialize::row::SerializedValues;
+                let pk_indexes: Vec<PartitionKeyIndex> = a[1].split(',').filter(|s| !s.is_empty()).map(|s| {
+                    let (i, q) = s.split_once(':').unwrap();
+                    PartitionKeyIndex { index: i.parse().unwrap(), sequence: q.parse().unwrap() }
+                }).collect();
+                let cells = &a[2..];
+                let typ = ColumnType::Native(NativeType::Blob);
+                let mut values = SerializedValues::new();
+                for c in cells {
+                    match *c {
+                        "null" => values.add_value(&Option::<Vec<u8>>::None, &typ).unwrap(),
+                        "unset" => values.add_value(&scylla_cql::value::MaybeUnset::<Vec<u8>>::Unset, &typ).unwrap(),
+                        "-" => values.add_value(&Vec::<u8>::new(), &typ).unwrap(),
+                        h => {
+                            let v: Vec<u8> = (0..h.len() / 2).map(|i| u8::from_str_radix(&h[2 * i..2 * i + 2], 16).unwrap()).collect();
+                            values.add_value(&v, &typ).unwrap()
+                        }
+                    }
+                }
+                let col_specs: Vec<ColumnSpec<'static>> = (0..cells.len())
+                    .map(|i| ColumnSpec::owned(format!("c{}", i), typ.clone(), TableSpec::owned("k".into(), "t".into()))).collect();
+                let meta = PreparedMetadata { flags: 0, col_count: cells.len(), pk_indexes, col_specs };
+                let mut stream: Vec<u8> = Vec::new();
+                let enc = vh::pk_encode(&meta, &values, &mut |chunk: &[u8]| stream.extend_from_slice(chunk));
+                let tok = vh::pk_token(&meta, &values, &scylla::routing::partitioner::PartitionerName::Murmur3);
+                match (enc, tok) {
+                    (Some(Ok(())), Some(Ok(t))) => format!("stream={} token={}", stream.iter().map(|b| format!("{:02x}", b)).collect::<String>(), t.value()),
+                    (None, _) | (_, None) => "EXTRACTION-ERR".to_string(),
+                    _ => "TOKEN-ERR".to_string(),
+                }
+            }
             "token_new" => Token::new(num(1) as i64).value().to_string(),
             _ => "UNKNOWN".to_string(),
         };
